@@ -78,6 +78,9 @@ class TreeGen:
         if c == 5 and rnd.random() < 0.3 and self.info['addr_bits'] >= 12:
             s = f'  .align {rnd.choice([2, 4, 8, 16])}'
             return s, s
+        if c == 6 and rnd.random() < 0.3 and self.cross_defs:
+            s = f'  .fill LATEK, {rnd.randrange(0, 256)}'        # LATEK is defined at the very end of main
+            return s, s
         if c == 4 and self.cross_defs:
             s = '  .byte ' + rnd.choice(['SYM0', 'KG0', 'SYM0 + 1', 'LSB(KG0 + SYM0)'])
             return s, s
@@ -197,6 +200,10 @@ class TreeGen:
                 pos = rnd.randrange(lo, len(parent['items']) + 1)
                 wrap = wraps[i]
                 seq = [{'t': 'inc', 'file': files[i]}]
+                if rnd.random() < 0.2:
+                    seq[0]['comment'] = rnd.choice([' ; helper routines', " ; don't move", ' ; the "io" part', '   ;'])
+                if rnd.random() < 0.3:
+                    seq[0]['quote'] = "'"
 
                 def ln(text):
                     return {'t': 'line', 's': text, 'r': text}
@@ -246,6 +253,7 @@ class TreeGen:
                     else:
                         files[i]['items'].insert(0, z())
                 parent['items'][pos:pos] = seq
+            files[0]['items'].append({'t': 'line', 's': 'LATEK = 2', 'r': 'LATEK = 2'})
             self._annotate_zones(files[0])
             self.files = files
             return files[0]
@@ -282,7 +290,7 @@ def split_files(main, include_line=None):
                 lines.append(it['s'])
             else:
                 q = it.get('quote', '"')
-                lines.append(f'#include {q}{it["file"]["name"]}{q}')
+                lines.append(f'#include {q}{it["file"]["name"]}{q}' + it.get('comment', ''))
                 walk(it['file'])
         out[relpath(f)] = lines
     walk(main)
@@ -317,23 +325,46 @@ def annotate_zones(f):
             annotate_zones(it['file'])
 
 
-def reference_lines(main, bracket=True):
-    """the in-place reference: one list of lines"""
-    annotate_zones(main)        # never trust stored annotations: the minimiser removes lines
-    out = []
+def _zone_after(lines, zone):
+    for t in lines:
+        t = t.strip()
+        if t.startswith('.memzone '):
+            zone = t.split()[1]
+        elif t.startswith('.org'):
+            parts = t.split('"')
+            zone = parts[1] if len(parts) >= 3 else 'GLOBAL'
+    return zone
 
-    def walk(f):
-        for it in f['items']:
+
+def reference_lines(main, bracket=True):
+    """the in-place reference: one list of lines.
+
+    A pasted chunk starts in GLOBAL and the includer resumes its own zone afterwards.  The brackets that express this are
+    emitted only where they change something: no opening `.memzone GLOBAL` when the includer already is in GLOBAL, no
+    closing bracket when the chunk ends in the includer's zone anyway or when nothing of the includer follows - a
+    bracket is a (non-byte) line object of its own, and as the address-wise last object it would extend the image."""
+    annotate_zones(main)        # never trust stored annotations: the minimiser removes lines
+
+    def flat(f):
+        out = []
+        items = f['items']
+        for i, it in enumerate(items):
             if it['t'] == 'line':
                 out.append(it['r'])
-            else:
-                if bracket:
-                    out.append('  .memzone GLOBAL')
-                walk(it['file'])
-                if bracket:
-                    out.append(f'  .memzone {it.get("zone", "GLOBAL")}')
-    walk(main)
-    return out
+                continue
+            chunk = flat(it['file'])
+            zone = it.get('zone', 'GLOBAL')
+            if not bracket or not chunk:
+                out.extend(chunk)
+                continue
+            if zone != 'GLOBAL':
+                out.append('  .memzone GLOBAL')
+            out.extend(chunk)
+            follows = any(x['t'] == 'inc' or x['r'].strip() for x in items[i + 1:])
+            if follows and _zone_after(chunk, 'GLOBAL') != zone:
+                out.append(f'  .memzone {zone}')
+        return out
+    return flat(main)
 
 
 def all_files(main):
